@@ -454,7 +454,14 @@ class Ring:
     def known_nonneg(self, p: Poly):
         if self.syntactically_nonneg(p):
             return True
-        return p.key() in self.positive_polys
+        k = p.key()
+        if k in self.positive_polys:
+            return True
+        # the normal form of a square: a relation v^2 -> q of a real variable v makes q (= v^2) non-negative
+        for i, (kk, q) in self.rel.items():
+            if kk == 2 and q.key() == k:
+                return True
+        return False
 
     def declare_nonneg(self, p: Poly):
         self.positive_polys.add(p.key())
